@@ -43,6 +43,13 @@ func KeyValueFromProto(proto *spacesyncproto.StoreKeyValue, verify bool) (kv Key
 		return kv, err
 	}
 	kv.TimestampMicro = innerValue.TimestampMicro
+	// The collection keeps the timestamp as a float64 (exact below 2^53) and compares it as
+	// int64, the diff advertises it as a big-endian uint64: the three orders agree only on
+	// [0, 2^53). Outside of it last-writer-wins depends on the arrival order and stores never
+	// converge, so such a value is not a valid one.
+	if kv.TimestampMicro < 0 || kv.TimestampMicro >= MaxTimestampMicro {
+		return kv, ErrInvalidTimestamp
+	}
 	identity, err := crypto.UnmarshalEd25519PublicKeyProto(innerValue.Identity)
 	if err != nil {
 		return kv, err
@@ -70,6 +77,12 @@ func KeyValueFromProto(proto *spacesyncproto.StoreKeyValue, verify bool) (kv Key
 	}
 	return kv, nil
 }
+
+// MaxTimestampMicro bounds the timestamps KeyValueFromProto accepts (exclusive): the largest
+// range in which float64 storage is exact.
+const MaxTimestampMicro = int64(1) << 53
+
+var ErrInvalidTimestamp = errors.New("timestamp out of range")
 
 func (v Value) AnyEnc(a *anyenc.Arena) *anyenc.Value {
 	obj := a.NewObject()
